@@ -581,4 +581,310 @@ theorem matchBook_dust (lo hi : Int) (b : Book) (lp : Int) (hlp : 0 < lp) (hb : 
           obtain ⟨rfl, rfl⟩ := hfin h
           exact (d0'.add a).congr (by simp only; omega) (by simp only; omega) rfl
 
+/-! ## the same in the monitor's vocabulary: sums over the flat order list of the book -/
+
+theorem zsum_append (g : Order × Order → Int) (l₁ l₂ l₁' l₂' : List Order) (h : l₁.length = l₁'.length) :
+    sumInt (((l₁ ++ l₂).zip (l₁' ++ l₂')).map g) = sumInt ((l₁.zip l₁').map g) + sumInt ((l₂.zip l₂').map g) := by
+  rw [List.zip_append h, List.map_append, sumInt_append]
+
+/-- the orders of a list of ticks, in book order -/
+def flatOrders (ts : List Tick) : List Order := (ts.map (·.orders)).flatten
+
+theorem flatOrders_cons (t : Tick) (ts : List Tick) : flatOrders (t :: ts) = t.orders ++ flatOrders ts := by
+  simp [flatOrders]
+
+/-- per list of one side: the monitor's sums are the lemmas' sums -/
+theorem side_sums (d : Dir) (os os' : List Order) (hok : ∀ o ∈ os, Wf o ∧ o.dir = d) (hr : All2 Reach os os') :
+    fillCount os os' = fillsOf os os' ∧
+    (d = .buy → buyPaid os os' = quoteOf os os' ∧ sellReceived os os' = 0 ∧
+      buyReceived os os' = filledOf os os' ∧ sellPaid os os' = 0) ∧
+    (d = .sell → buyPaid os os' = 0 ∧ sellReceived os os' = - quoteOf os os' ∧
+      buyReceived os os' = 0 ∧ sellPaid os os' = filledOf os os') := by
+  induction os generalizing os' with
+  | nil =>
+    cases os' with
+    | nil => simp [fillCount, fillsOf, buyPaid, sellReceived, buyReceived, sellPaid, quoteOf, filledOf, sumInt]
+    | cons _ _ => exact hr.elim
+  | cons o os ih =>
+    cases os' with
+    | nil => exact hr.elim
+    | cons o' os' =>
+      obtain ⟨i0, i1, i2⟩ := ih os' (fun x hx => hok x (by simp [hx])) hr.2
+      obtain ⟨hw, hd⟩ := hok o (by simp)
+      have dl := reach_delta hr.1 hw
+      refine ⟨?_, ?_, ?_⟩
+      · simp only [fillCount, fillsOf, List.zip_cons_cons, List.map_cons, List.zipWith_cons_cons, sumInt] at i0 ⊢
+        omega
+      · intro hb
+        obtain ⟨j1, j2, j3, j4⟩ := i1 hb
+        have hob : o.dir = .buy := by rw [hd, hb]
+        have := dl.buy_recv hob
+        simp only [buyPaid, sellReceived, buyReceived, sellPaid, quoteOf, filledOf, List.zip_cons_cons, List.map_cons,
+          List.zipWith_cons_cons, sumInt, hob, if_true] at j1 j2 j3 j4 ⊢
+        simp only [reduceCtorEq, if_false] at j2 j4 ⊢
+        refine ⟨by omega, by omega, by omega, by omega⟩
+      · intro hs
+        obtain ⟨j1, j2, j3, j4⟩ := i2 hs
+        have hos : o.dir = .sell := by rw [hd, hs]
+        have := dl.sell_paid hos
+        simp only [buyPaid, sellReceived, buyReceived, sellPaid, quoteOf, filledOf, List.zip_cons_cons, List.map_cons,
+          List.zipWith_cons_cons, sumInt, hos, if_true] at j1 j2 j3 j4 ⊢
+        simp only [reduceCtorEq, if_false] at j1 j2 j3 ⊢
+        refine ⟨by omega, by omega, by omega, by omega⟩
+
+theorem flat_length {ts ts' : List Tick} (hr : All2 TickReach ts ts') : (flatOrders ts).length = (flatOrders ts').length := by
+  induction ts generalizing ts' with
+  | nil => cases ts' with
+    | nil => rfl
+    | cons _ _ => exact hr.elim
+  | cons t ts ih => cases ts' with
+    | nil => exact hr.elim
+    | cons t' ts' =>
+      rw [flatOrders_cons, flatOrders_cons, List.length_append, List.length_append, ih hr.2, all2_length hr.1.2]
+
+/-- one side of the book: the monitor's sums over the flat order list are the lemmas' sums over the ticks -/
+theorem ticks_sums (d : Dir) (ts ts' : List Tick) (hok : ∀ t ∈ ts, TickOk d t) (hr : All2 TickReach ts ts') :
+    fillCount (flatOrders ts) (flatOrders ts') = ticksFills ts ts' ∧
+    (d = .buy → buyPaid (flatOrders ts) (flatOrders ts') = ticksQuote ts ts' ∧ sellReceived (flatOrders ts) (flatOrders ts') = 0 ∧
+      buyReceived (flatOrders ts) (flatOrders ts') = ticksFilled ts ts' ∧ sellPaid (flatOrders ts) (flatOrders ts') = 0) ∧
+    (d = .sell → buyPaid (flatOrders ts) (flatOrders ts') = 0 ∧ sellReceived (flatOrders ts) (flatOrders ts') = - ticksQuote ts ts' ∧
+      buyReceived (flatOrders ts) (flatOrders ts') = 0 ∧ sellPaid (flatOrders ts) (flatOrders ts') = ticksFilled ts ts') := by
+  induction ts generalizing ts' with
+  | nil =>
+    cases ts' with
+    | nil => simp [flatOrders, fillCount, buyPaid, sellReceived, buyReceived, sellPaid, ticksFills, ticksQuote, ticksFilled, sumInt]
+    | cons _ _ => exact hr.elim
+  | cons t ts ih =>
+    cases ts' with
+    | nil => exact hr.elim
+    | cons t' ts' =>
+      obtain ⟨i0, i1, i2⟩ := ih ts' (fun x hx => hok x (by simp [hx])) hr.2
+      have hl := all2_length hr.1.2
+      obtain ⟨s0, s1, s2⟩ := side_sums d t.orders t'.orders (fun o ho => ⟨(hok t (by simp) o ho).1, (hok t (by simp) o ho).2.1⟩) hr.1.2
+      rw [flatOrders_cons, flatOrders_cons, ticksFills_cons, ticksQuote_cons, ticksFilled_cons]
+      have e0 : fillCount (t.orders ++ flatOrders ts) (t'.orders ++ flatOrders ts') =
+          fillCount t.orders t'.orders + fillCount (flatOrders ts) (flatOrders ts') := zsum_append _ _ _ _ _ hl
+      have e1 : buyPaid (t.orders ++ flatOrders ts) (t'.orders ++ flatOrders ts') =
+          buyPaid t.orders t'.orders + buyPaid (flatOrders ts) (flatOrders ts') := zsum_append _ _ _ _ _ hl
+      have e2 : sellReceived (t.orders ++ flatOrders ts) (t'.orders ++ flatOrders ts') =
+          sellReceived t.orders t'.orders + sellReceived (flatOrders ts) (flatOrders ts') := zsum_append _ _ _ _ _ hl
+      have e3 : buyReceived (t.orders ++ flatOrders ts) (t'.orders ++ flatOrders ts') =
+          buyReceived t.orders t'.orders + buyReceived (flatOrders ts) (flatOrders ts') := zsum_append _ _ _ _ _ hl
+      have e4 : sellPaid (t.orders ++ flatOrders ts) (t'.orders ++ flatOrders ts') =
+          sellPaid t.orders t'.orders + sellPaid (flatOrders ts) (flatOrders ts') := zsum_append _ _ _ _ _ hl
+      rw [e0, e1, e2, e3, e4]
+      refine ⟨by omega, ?_, ?_⟩
+      · intro hb
+        obtain ⟨a1, a2, a3, a4⟩ := s1 hb
+        obtain ⟨b1, b2, b3, b4⟩ := i1 hb
+        refine ⟨by omega, by omega, by omega, by omega⟩
+      · intro hs
+        obtain ⟨a1, a2, a3, a4⟩ := s2 hs
+        obtain ⟨b1, b2, b3, b4⟩ := i2 hs
+        refine ⟨by omega, by omega, by omega, by omega⟩
+
+/-- the whole book -/
+theorem book_sums (b b' : Book) (hb : BookOk b) (hr : BookReach b b') :
+    fillCount b.orders b'.orders = ticksFills b.buys b'.buys + ticksFills b.sells b'.sells ∧
+    buyPaid b.orders b'.orders - sellReceived b.orders b'.orders = ticksQuote b.buys b'.buys + ticksQuote b.sells b'.sells ∧
+    buyReceived b.orders b'.orders = ticksFilled b.buys b'.buys ∧
+    sellPaid b.orders b'.orders = ticksFilled b.sells b'.sells := by
+  obtain ⟨x0, x1, _⟩ := ticks_sums .buy b.buys b'.buys hb.1 hr.1
+  obtain ⟨y0, _, y2⟩ := ticks_sums .sell b.sells b'.sells hb.2 hr.2
+  obtain ⟨a1, a2, a3, a4⟩ := x1 rfl
+  obtain ⟨c1, c2, c3, c4⟩ := y2 rfl
+  have hl := flat_length hr.1
+  have ef : ∀ (bk : Book), bk.orders = flatOrders bk.buys ++ flatOrders bk.sells := fun _ => rfl
+  rw [ef b, ef b']
+  have e0 : fillCount (flatOrders b.buys ++ flatOrders b.sells) (flatOrders b'.buys ++ flatOrders b'.sells) =
+      fillCount (flatOrders b.buys) (flatOrders b'.buys) + fillCount (flatOrders b.sells) (flatOrders b'.sells) :=
+    zsum_append _ _ _ _ _ hl
+  have e1 : buyPaid (flatOrders b.buys ++ flatOrders b.sells) (flatOrders b'.buys ++ flatOrders b'.sells) =
+      buyPaid (flatOrders b.buys) (flatOrders b'.buys) + buyPaid (flatOrders b.sells) (flatOrders b'.sells) :=
+    zsum_append _ _ _ _ _ hl
+  have e2 : sellReceived (flatOrders b.buys ++ flatOrders b.sells) (flatOrders b'.buys ++ flatOrders b'.sells) =
+      sellReceived (flatOrders b.buys) (flatOrders b'.buys) + sellReceived (flatOrders b.sells) (flatOrders b'.sells) :=
+    zsum_append _ _ _ _ _ hl
+  have e3 : buyReceived (flatOrders b.buys ++ flatOrders b.sells) (flatOrders b'.buys ++ flatOrders b'.sells) =
+      buyReceived (flatOrders b.buys) (flatOrders b'.buys) + buyReceived (flatOrders b.sells) (flatOrders b'.sells) :=
+    zsum_append _ _ _ _ _ hl
+  have e4 : sellPaid (flatOrders b.buys ++ flatOrders b.sells) (flatOrders b'.buys ++ flatOrders b'.sells) =
+      sellPaid (flatOrders b.buys) (flatOrders b'.buys) + sellPaid (flatOrders b.sells) (flatOrders b'.sells) :=
+    zsum_append _ _ _ _ _ hl
+  rw [e0, e1, e2, e3, e4]
+  refine ⟨by omega, by omega, by omega, by omega⟩
+
+/-! ## price bounds of a book built by `NewOrderBook` -/
+
+theorem maxList_ge (l : List Int) (x : Int) (h : x ∈ l) : x ≤ maxList l := by
+  induction l with
+  | nil => simp at h
+  | cons y ys ih =>
+    unfold maxList
+    rcases List.mem_cons.mp h with rfl | h
+    · omega
+    · have := ih h; omega
+
+theorem minList_le (l : List Int) (x : Int) (h : x ∈ l) : minList l ≤ x := by
+  induction l with
+  | nil => simp at h
+  | cons y ys ih =>
+    cases ys with
+    | nil => simp at h; subst h; simp [minList]
+    | cons z zs =>
+      unfold minList
+      rcases List.mem_cons.mp h with rfl | h
+      · omega
+      · have := ih h; omega
+
+theorem insertTick_nonempty (incr : Bool) (o : Order) (ts : List Tick) (h : ∀ t ∈ ts, t.orders ≠ []) :
+    ∀ t ∈ insertTick incr o ts, t.orders ≠ [] := by
+  induction ts with
+  | nil => intro t ht; simp only [insertTick, List.mem_singleton] at ht; subst ht; simp
+  | cons t0 ts ih =>
+    have h0 := h t0 (by simp)
+    have hrest : ∀ t ∈ ts, t.orders ≠ [] := fun t ht => h t (by simp [ht])
+    unfold insertTick
+    split
+    · intro t ht
+      rcases List.mem_cons.mp ht with rfl | ht
+      · simp
+      · exact hrest t ht
+    · by_cases hc : (if incr = true then decide (t0.price > o.price) else decide (t0.price < o.price)) = true
+      · rw [if_pos hc]
+        intro t ht
+        rcases List.mem_cons.mp ht with rfl | ht
+        · simp
+        · exact h t ht
+      · rw [if_neg hc]
+        intro t ht
+        rcases List.mem_cons.mp ht with rfl | ht
+        · exact h0
+        · exact ih hrest t ht
+
+/-- `NewOrderBook` makes no empty tick -/
+theorem newBook_nonempty (os : List Order) :
+    (∀ t ∈ (newBook os).buys, t.orders ≠ []) ∧ (∀ t ∈ (newBook os).sells, t.orders ≠ []) := by
+  unfold newBook
+  have : ∀ (b : Book), ((∀ t ∈ b.buys, t.orders ≠ []) ∧ (∀ t ∈ b.sells, t.orders ≠ [])) →
+      ((∀ t ∈ (os.foldl addOrder b).buys, t.orders ≠ []) ∧ (∀ t ∈ (os.foldl addOrder b).sells, t.orders ≠ [])) := by
+    induction os with
+    | nil => intro b hb; exact hb
+    | cons o os ih =>
+      intro b hb
+      apply ih
+      unfold addOrder
+      split
+      · cases o.dir with
+        | buy => exact ⟨insertTick_nonempty false o b.buys hb.1, hb.2⟩
+        | sell => exact ⟨hb.1, insertTick_nonempty true o b.sells hb.2⟩
+      · exact hb
+  exact this _ ⟨by simp, by simp⟩
+
+/-- the tick prices of a well-formed book without empty ticks lie between `priceLo` and `priceHi` of its orders -/
+theorem book_price_bounds (b : Book) (hb : BookOk b)
+    (hne : (∀ t ∈ b.buys, t.orders ≠ []) ∧ (∀ t ∈ b.sells, t.orders ≠ [])) :
+    (∀ t ∈ b.buys, t.price ≤ priceHi b.orders) ∧ (∀ t ∈ b.sells, priceLo b.orders ≤ t.price) := by
+  constructor
+  · intro t ht
+    cases ho : t.orders with
+    | nil => exact absurd ho (hne.1 t ht)
+    | cons o rest =>
+      have hmem : o ∈ t.orders := by rw [ho]; simp
+      obtain ⟨_, hd, hpr⟩ := hb.1 t ht o hmem
+      rw [← hpr]
+      apply maxList_ge
+      rw [List.mem_map]
+      refine ⟨o, ?_, rfl⟩
+      rw [List.mem_filter]
+      exact ⟨by unfold Book.orders; exact List.mem_append_left _ (mem_flatten_ticks_of ht hmem), by simp [hd]⟩
+  · intro t ht
+    cases ho : t.orders with
+    | nil => exact absurd ho (hne.2 t ht)
+    | cons o rest =>
+      have hmem : o ∈ t.orders := by rw [ho]; simp
+      obtain ⟨_, hd, hpr⟩ := hb.2 t ht o hmem
+      rw [← hpr]
+      apply minList_le
+      rw [List.mem_map]
+      refine ⟨o, ?_, rfl⟩
+      rw [List.mem_filter]
+      exact ⟨by unfold Book.orders; exact List.mem_append_right _ (mem_flatten_ticks_of ht hmem), by simp [hd]⟩
+
+/-- `DustBound` on the sums of the monitor is the monitor -/
+theorem monQuoteDustAt_of (pre post : List Order) (q lo hi : Int)
+    (hq : q = buyPaid pre post - sellReceived pre post)
+    (h : DustBound lo hi (baseLost pre post) (fillCount pre post) q) (hlo : 0 ≤ lo) :
+    monQuoteDustAt pre post q lo hi = true := by
+  obtain ⟨a0, a1, a2, a3⟩ := h
+  have hP := P_pos
+  have hq0 : 0 ≤ q := by
+    have h1 : 0 ≤ lo * baseLost pre post := Int.mul_nonneg hlo a1
+    have h2 : 0 ≤ q * Dec.P := by omega
+    by_contra hneg
+    have : q * Dec.P < 0 := Int.mul_neg_of_neg_of_pos (by omega) hP
+    omega
+  unfold monQuoteDustAt
+  simp only [Bool.and_eq_true, beq_iff_eq, decide_eq_true_eq]
+  exact ⟨⟨⟨⟨⟨hq, hq0⟩, a1⟩, a0⟩, a2⟩, a3⟩
+
+/-- **the dust clause on every result of `OrderBook.Match`**, in the form the driver evaluates on the real result -/
+theorem matchBook_monDust (b : Book) (lp : Int) (hlp : 0 < lp) (hb : BookOk b)
+    (hn : (∀ t ∈ b.buys, (t.orders.map (·.id)).Nodup) ∧ (∀ t ∈ b.sells, (t.orders.map (·.id)).Nodup))
+    (hne : (∀ t ∈ b.buys, t.orders ≠ []) ∧ (∀ t ∈ b.sells, t.orders ≠ []))
+    (b' : Book) (mp q : Int) (h : matchBook b lp = .ok b' mp q) :
+    monQuoteDustAt b.orders b'.orders q (priceLo b.orders) (priceHi b.orders) = true := by
+  obtain ⟨hhi, hlo⟩ := book_price_bounds b hb hne
+  have hd := matchBook_dust (priceLo b.orders) (priceHi b.orders) b lp hlp hb hn hhi hlo b' mp q h
+  obtain ⟨hq, _⟩ := matchBook_account b lp hlp hb hn b' mp q h
+  rcases matchBook_ok b lp hlp hb with h0 | ⟨b2, mp2, q2, h2, hr⟩
+  · rw [h0] at h; cases h
+  · rw [h2] at h; cases h
+    obtain ⟨s0, s1, s2, s3⟩ := book_sums b b' hb hr
+    apply monQuoteDustAt_of
+    · rw [s1]; exact hq
+    · unfold baseLost; rw [s0, s2, s3]; exact hd
+    · -- priceLo ≥ 0: a minimum of positive prices (or 0)
+      unfold priceLo
+      have : ∀ (l : List Int), (∀ x ∈ l, 0 ≤ x) → 0 ≤ minList l := by
+        intro l
+        induction l with
+        | nil => intro _; simp [minList]
+        | cons y ys ih =>
+          intro hl
+          cases ys with
+          | nil => simp [minList]; exact hl y (by simp)
+          | cons z zs =>
+            unfold minList
+            have := ih (fun x hx => hl x (by simp [hx]))
+            have := hl y (by simp)
+            omega
+      apply this
+      intro x hx
+      rw [List.mem_map] at hx
+      obtain ⟨o, ho, rfl⟩ := hx
+      have ho' := (List.mem_filter.mp ho).1
+      unfold Book.orders at ho'
+      rcases List.mem_append.mp ho' with hm | hm
+      · obtain ⟨t, ht, hot⟩ := mem_flatten_ticks hm
+        have := (hb.1 t ht o hot).1.price_pos; omega
+      · obtain ⟨t, ht, hot⟩ := mem_flatten_ticks hm
+        have := (hb.2 t ht o hot).1.price_pos; omega
+
+/-- the same for `MatchAtSinglePrice` (`lo = hi = p`: exact in the price) -/
+theorem matchAtSinglePrice_monDust (b : Book) (p : Int) (hp : 0 < p) (hb : BookOk b)
+    (hnd : (∀ t ∈ b.buys, t.orders.Nodup) ∧ (∀ t ∈ b.sells, t.orders.Nodup))
+    (b' : Book) (q : Int) (h : matchAtSinglePrice b p = .ok b' q) :
+    monQuoteDustAt b.orders b'.orders q p p = true := by
+  have hd := matchAtSinglePrice_dust b p hp hb hnd b' q h
+  obtain ⟨x, _, _, hq, _⟩ := matchAtSinglePrice_account b p hp hb hnd b' q h
+  rcases matchAtSinglePrice_ok b p hp hb with h0 | ⟨b2, q2, h2, hr⟩
+  · rw [h0] at h; cases h
+  · rw [h2] at h; cases h
+    obtain ⟨s0, s1, s2, s3⟩ := book_sums b b' hb hr
+    apply monQuoteDustAt_of
+    · rw [s1]; exact hq
+    · unfold baseLost; rw [s0, s2, s3]; exact hd
+    · omega
+
 end Comdex.Amm
